@@ -57,7 +57,9 @@ func genItem(t *rapid.T, v6 bool) Item {
 
 var pluginNames = []string{"dns", "server_id", "file", "range", "router", "netmask", "lease_time", "prefix", "nbp", "mtu", "sleep", "staticroute", "searchdomains", "myplugin", "x", "plugin2"}
 var argTokens = []string{"8.8.8.8", "8.8.4.4", "2001:4860:4860::8888", "10.0.0.0/24,10.0.0.1", "2001:db8::/48", "64", "3600s", "1h30m", "LL", "00:de:ad:be:ef:00", "leases.txt", "/var/lib/coredhcp/leases.sqlite3",
-	"http://[2001:db8:a::1]/nbp", "tftp://10.0.0.1/boot.img", "autorefresh", "1500", "0", "65535", "example.com", "a.b.c", "255.255.255.0", "10.10.10.100", "10.10.10.200", "60s", "x=y", "a,b", "k:v", "#notacomment", "it's", "say\"hi\""}
+	"http://[2001:db8:a::1]/nbp", "tftp://10.0.0.1/boot.img", "autorefresh", "1500", "0", "65535", "example.com", "a.b.c", "255.255.255.0", "10.10.10.100", "10.10.10.200", "60s", "x=y", "a,b", "k:v", "#notacomment", "it's", "say\"hi\"",
+	// arguments are taken literally: a '$' is a character like any other (boot URLs carry variables the client expands)
+	"http://10.0.0.254/boot.ipxe?mac=${mac}", "tftp://10.0.0.1/images/$arch/pxelinux.0", "$HOME/leases.txt", "${PATH}", "a$", "$$", "~/leases.txt"}
 
 func genPlugin(t *rapid.T) Plugin {
 	p := Plugin{Name: rapid.SampledFrom(pluginNames).Draw(t, "plugin-name")}
